@@ -4,5 +4,9 @@ REGISTRY = {
     "C02": ("simrun", "SimRun"),
     "C14": ("envhist", "EnvHist"),
     "C16": ("conshist", "ConsHist"),
+    "C22": ("modelhist", "ModelHist"),
+    "C23": ("modelhist", "ModelHist"),
+    "C24": ("modelhist", "ModelHist"),
+    "C35": ("envsim", "EnvSim"),
     "C36": ("statehist", "StateHist"),
 }
